@@ -20,6 +20,7 @@ void *__real_memcpy(void *, const void *, size_t); void *__real_memset(void *, i
 #define MAXALT 16
 #define MAXCHOICE 4096
 #define MAXPREFIX 4096
+#define SBMAX 4
 
 typedef uint32_t VC[MAXT];
 
@@ -47,7 +48,7 @@ typedef struct Thread {
     void *(*fn)(void *); void *arg; void *retval;
     void *stack_lo, *stack_hi;
     /* spin detection */
-    uintptr_t spin_addr; uint64_t spin_val; unsigned long spin_ctx; unsigned long spin_epoch; int spin_parked; int spin_repeat;
+    uintptr_t spin_addr; uint64_t spin_val; unsigned long spin_ctx; unsigned long spin_epoch; int spin_parked; int spin_repeat; long spin_same;
     /* call-context hash maintained by __tsan_func_entry/exit */
     unsigned long ctx_stack[64]; int ctx_depth;
     long nops;
@@ -61,6 +62,9 @@ typedef struct Thread {
     unsigned long sleep_until;
     void *pend_obj2; int poll_fired, poll_has_timeout;      /* KSIM poll: readiness predicate, virtual time-out */
     int woken;                     /* for cond waiters: set by signal/broadcast/spurious */
+    /* x86-TSO store buffer (only with -B): stores held back from the other threads, oldest first */
+    struct { uintptr_t a; int n; uint64_t v; VC vc; } sb[SBMAX]; int sb_n;
+    uintptr_t pst_a; int pst_n; uint64_t pst_old; VC pst_vc;    /* a volatile store the thread is executing right now and that is to be buffered */
 } Thread;
 
 typedef struct Choice { uint8_t n, chosen; uint8_t cost[MAXALT]; uint64_t fp; } Choice;
@@ -69,7 +73,9 @@ typedef struct Choice { uint8_t n, chosen; uint8_t cost[MAXALT]; uint64_t fp; } 
 typedef struct Ctl {
     /* in */
     int prefix_len; uint8_t prefix[MAXPREFIX]; uint8_t prefix_n[MAXPREFIX];
-    int horizon; int verbose; long exec_id;
+    int horizon; int verbose; long exec_id; int tso;
+    long spin_patience;            /* identical observations after which a spinning thread is parked (1 = at once; -S) */
+    int lean, bound_p, bound_s, bound_d;   /* -S: alternatives beyond the remaining budgets are not even listed (keeps a 10^7-step spin free of choice points) */
     /* out */
     int ntrace; Choice trace[MAXCHOICE];
     int overflow;
@@ -129,6 +135,8 @@ void sync_clock_drop(void *obj);
 int  addr_on_any_stack(const void *a);
 unsigned long addr_write_epoch(uintptr_t a);
 void addr_bump_epoch(uintptr_t a);
+void tso_capture(Thread *t);          /* store buffer: take a just executed, to-be-buffered volatile store back out of memory */
+void tso_flush(Thread *t);            /* make every buffered store of t visible, oldest first */
 
 /* memory */
 void mem_init(void);
